@@ -285,6 +285,17 @@ func runLspHistory(texts []string, hist []lspReq) (obs []string, short []string,
 		var ret any
 		var out string
 		pan := false
+		if (hi+len(texts[0]))%3 == 1 {
+			// between two requests of the history, one the specification does not know of - initialize, a close
+			// or save notification, a cancellation, a method that does not exist - about the same document: none
+			// of them changes any document or produces anything the history sees
+			noise := jsonrpc2.Request{Method: []string{"initialize", "textDocument/didClose", "textDocument/didSave", "$/cancelRequest", "workspace/didChangeConfiguration", "textDocument/completion", "shutdown"}[(hi/3)%7]}
+			noise.Params = rawParams(map[string]any{"textDocument": map[string]any{"uri": rq.URI, "version": 99, "text": "send [X 1] (source=@world destination=@noise)"}, "position": map[string]any{"line": 0, "character": 0}})
+			captureStdout(func() {
+				defer func() { recover() }()
+				lsp.Handle(noise, &state)
+			})
+		}
 		req := jsonrpc2.Request{}
 		switch rq.Op {
 		case "open":
